@@ -18,6 +18,46 @@ CLAIMS = {
         note="Trusted: hook placement at the linearization points (add-only, guard NANO_VERIF); std::mutex/condition_variable "
              "semantics as modelled; blocking inside wait() is inferred, lost wake-ups on the implementation are observed only "
              "as a watchdog Timeout; TSan run is auxiliary (thorough)."),
+    "C19": dict(
+        category="model_checking", design_ref="DESIGN.md §3 C19",
+        technique="TLC state graph of Parameter.tla replayed edge by edge on real parameter_t objects + TLC validation of a factory sweep trace (ConfigurableTrace.tla)",
+        text="The full reachable state graph of the parameter specification (6 kinds x all <=/< combinations, half-integer grid with "
+             "boundary +-1 ulp, NaN/inf, strings, pairs, enums, reads, write+read) is computed by TLC with the property formulas checked "
+             "on it; every one of its ~196k edges and random 6-step walks are executed on real parameter_t objects and the projected "
+             "state compared after each step. Every object of the 11 factories is swept (id, defaults in domain, unknown names, clone "
+             "equality and independence after re-configuration) and the trace validated by TLC.",
+        note="Real kinds are compared through an order embedding of the grid; NaN/inf into integer kinds expects rejection (x86 "
+             "conversion), not run under UBSan; real-valued domains of factory objects enter TLC as order ranks."),
+    "C11": dict(
+        category="model_checking", design_ref="DESIGN.md §3 C11, appendix E",
+        technique="TLC state graph of EarlyStopping.tla replayed on the real early_stopping_t (every edge; thorough: all histories) + TLC validation of real gboost/linear fit observations (GBoostFitTrace.tla)",
+        text="TLC checks the stop/report/snapshot formulas of the early-stopping monitor on all histories (7-value alphabet, patience "
+             "1..4, with/without validation) and the truncation invariants of the boosting loop; every edge of the state graph is "
+             "replayed on a real gboost::early_stopping_t (thorough: 14M explicit histories in lock-step with the exported transition "
+             "table). Real gboost and linear fits (losses, weak-learner pools, shrinkage/subsample/wscale modes, both tuners, folds 2..5) "
+             "are re-computed through the public API per (trial, fold) and for the final model and validated by TLC.",
+        note="Equality of stored and recomputed statistics/predictions (1e-11 relative) is computed by the driver and enters TLC as "
+             "booleans; TLC decides the slot bookkeeping, rows/learners kept, optimum trial."),
+    "C13": dict(
+        category="model_checking", design_ref="DESIGN.md §3 C13, appendix B.8",
+        technique="TLC exhaustive model checking of Tuner.tla (all landscapes) and MLTune.tla (all schedules) + TLC validation of recorded tuner / ml::tune traces (TunerTrace.tla)",
+        text="TLC explores both tuners on every landscape over small grids (1-3 dimensions, ties, non-finite values) for grid-only, "
+             "no-repeat, count bound, rejection of non-finite values, sorted result, termination; and all interleavings of the "
+             "(trial, fold) tasks of ml::tune for exactly-once callbacks, own-slot storage and confluence. Real runs of both tuners "
+             "(grids 2..31, plateaus/ties/corner minima/NaN/inf, max_evals 10..1000) and of ml::tune (folds 2..10, pools of 1..16 "
+             "threads with seeded delays) are recorded through the callbacks and validated by TLC.",
+        note="Landscape values are small integers; the fold of a callback is identified from the index sets (k-fold splits); the "
+             "trace specification requires only what the property states (not the search strategy)."),
+    "C15": dict(
+        category="fault_enumeration", design_ref="DESIGN.md §3 C15",
+        technique="TLC model checking of StreamRead.tla + exhaustive truncation/corruption enumeration on real streams validated by TLC (StreamReadTrace.tla)",
+        text="Every strict prefix (all offsets) and every single-byte tensor-payload alteration of a corpus of ~1000 serialised objects "
+             "(tensors 10 types x rank 1..5 incl. empty, parameters, features, configured solver/loss/splitter/tuner/line-search, fitted "
+             "weak learners, linear and gboost models) is read back through a tracing streambuf; TLC checks every outcome is a rejection, "
+             "the full stream is accepted, consumed entirely and observationally identical, and replays the byte-level requests against "
+             "the istream semantics. TLC also explores all field programs of the reader model.",
+        note="A reduced corpus runs in the ASan/UBSan build (crash / out-of-bounds clause); length fields are not altered; header-byte "
+             "alterations only need to survive; round-trip identity is computed by the driver."),
 }
 
 NOT_YET = "machinery not finished (see DESIGN.md §7: a property is claimed only once its quick check passes and its demo mutations are caught)"
